@@ -39,8 +39,8 @@ static void build_grid() {
     static const uint32_t maxleafs[] = {1, 4, 6, 7, 13, 27};
     static const uint64_t xcr0s[] = {1, 3, 7, 0xE7};
     static const uint32_t l1x[] = {0x7ffafbffu & ~((1u << 26) | (1u << 27) | (1u << 28)), 0u};
-    // hardware feature sets are kept consistent (AVX2 => AVX => SSE2); everything else is a free dimension
-    static const int feat[4][3] = {{0, 0, 0}, {1, 0, 0}, {1, 1, 0}, {1, 1, 1}};
+    // hardware feature sets are kept consistent (AVX => SSE2; AVX2 without AVX only as a masked leaf 1); everything else is a free dimension
+    static const int feat[5][3] = {{0, 0, 0}, {1, 0, 0}, {1, 1, 0}, {1, 1, 1}, {1, 0, 1}};   // the last row: a hypervisor masks AVX in leaf 1 but leaves the AVX2 bit in leaf 7
     for (uint32_t ml : maxleafs) for (auto &ft : feat) for (int osx = 0; osx < 2; ++osx)
         for (uint64_t x : xcr0s) for (int other = 0; other < 2; ++other) for (int intel = 0; intel < 2; ++intel) for (uint32_t e : l1x) {
             CpuModel m; m.maxleaf = ml; m.sse2 = ft[0]; m.avx = ft[1]; m.avx2 = ft[2]; m.osxsave = osx;
